@@ -441,10 +441,28 @@ ghost c10_planErr Int
 ghost c10_dlErr Int
 ghost c10_applyErr Int
 
+ghost fl_saved Int
+ghost fl_readErr Int
+ghost fl_statErr Int
+ghost fl_listErr Int
+ghost fl_iterErr Int
+ghost fl_resumed Bool
+pred reachableTXID(cl int, t int) = exists lv int, k int :: {replFile(cl, lv, k)} 0 <= lv && lv <= 9 && 0 <= k && k < replN(cl, lv) && fmax(replFile(cl, lv, k)) >= t
+
 func litestream.(*Replica).Restore(r, ctx, opt) (err)
-  requires r != nil && r.Client != nil && opt.TXID < 9223372036854775807 && !txf_renamed
+  requires r != nil && r.Client != nil && opt.TXID < 9223372036854775807 && !txf_renamed && !fl_resumed
+  at os.Stat#1 set fl_statErr = $result1
+  at litestream.ReadTXIDFile#1 set fl_saved = $result0
+  at litestream.ReadTXIDFile#1 set fl_readErr = $result1
+  at litestream.ReplicaClient.LTXFiles#1 set fl_listErr = $result1
+  at ltx.FileIterator.Err#1 set fl_iterErr = $result0
+  at litestream.(*Replica).follow#1 assert [C16.resume-from-sidecar] $arg1 == opt.OutputPath && $arg2 == fl_saved && fl_saved > 0 && fl_readErr == nil
+  at litestream.(*Replica).follow#1 set fl_resumed = true
+  ensures [C16.resume] opt.Follow && opt.OutputPath != "" && opt.TXID == 0 && isZero(opt.Timestamp) && (opt.IntegrityCheck == 0 || opt.IntegrityCheck == 1 || opt.IntegrityCheck == 2) && fl_statErr == nil && fl_readErr == nil && fl_saved > 0 && fl_listErr == nil && fl_iterErr == nil && reachableTXID(old(r.Client), fl_saved) ==> fl_resumed
+  loop 0 invariant snapshotItr != nil && itOK(snapshotItr) && it_client[snapshotItr] == old(r.Client) && it_level[snapshotItr] == 9 && wfLevel(old(r.Client), 9) && r == old(r)
+  loop 0 invariant latestSnapshot == nil || (exists k int :: {item(snapshotItr, k)} 0 <= k && k < it_idx[snapshotItr] && latestSnapshot == item(snapshotItr, k))
   requires !pub_renamed && !c10_statAbsent && !c10_removed && c10_integrityErr == nil && c10_decodeErr == nil && c10_syncErr == nil && c10_closeErr == nil && c10_planErr == nil && c10_dlErr == nil && c10_applyErr == nil && v3_opened == 0
-  modifies $heap, $alloc, it_idx, file_written, path_synced, path_handle, file_closed, pub_dst, pub_renamed, txf_dst, txf_renamed, c10_statAbsent, c10_decodeErr, c10_syncErr, c10_closeErr, c10_integrityErr, c10_ctxErr, c10_removed, c10_planErr, c10_dlErr, c10_applyErr, arb_v3U, arb_ltxU, arb_v3S, arb_v3SCreated, arb_ltxS, arb_ltxSCreated, v3_opened, v3_walIndex
+  modifies $heap, $alloc, it_idx, file_written, path_synced, path_handle, file_closed, flock_held, fl_decClosed, fl_cur, fl_saved, fl_readErr, fl_statErr, fl_listErr, fl_iterErr, fl_resumed, pub_dst, pub_renamed, txf_dst, txf_renamed, c10_statAbsent, c10_decodeErr, c10_syncErr, c10_closeErr, c10_integrityErr, c10_ctxErr, c10_removed, c10_planErr, c10_dlErr, c10_applyErr, arb_v3U, arb_ltxU, arb_v3S, arb_v3SCreated, arb_ltxS, arb_ltxSCreated, v3_opened, v3_walIndex
   at os.Stat#2 set c10_statAbsent = isNotExist($result1)
   at litestream.CalcRestorePlan#1 set c10_planErr = $result1
   at os.Create#all assert [C03.tmp-only] hasSuffix($arg0, ".tmp") && $arg0 == tmpOutputPath && tmpOutputPath == concat(opt.OutputPath, ".tmp")
@@ -773,4 +791,78 @@ func litestream.(*DB).Sync(db, ctx) (err)
   at litestream.(*DB).syncOnce#1 set c13_lastSynced = $result0.synced
   loop 0 invariant db == old(db) && c13_evals >= old(c13_evals)
   ensures [C13.loop] err == nil && c13_exec && c13_lastSynced ==> c13_evals > old(c13_evals)
+
+// ---------------------------------------------------------------------------
+// C16: follow mode. fl_cur is the TXID the follower database has been brought to.
+ghost fl_cur Int
+ghost fl_decClosed Int
+ghost fl_hdrCommit Int
+
+pred synced(f *os.File) = path_synced[file_path[f]]
+
+// One file is applied under the exclusive lock, truncated to its commit size, checksum-verified
+// (Decoder.Close) and made durable before success is reported.
+func litestream.(*Replica).applyLTXFile(r, ctx, f, info, pageSize) (err)
+  requires r != nil && f != nil && info != nil && fl_decClosed == nil && pageSize <= 65536
+  modifies $alloc, path_synced, file_closed, flock_held, fl_decClosed, all(ltx.Decoder), all(ltx.Header), all(ltx.Trailer), all(ltx.PageHeader), all(ltx.PageIndexElem), key("Elem_string"), key("Elem_uint8")
+  at litestream.ReplicaClient.OpenLTXFile#1 assert [C16.open-args] $recv == r.Client && $arg1 == info.Level && $arg2 == info.MinTXID && $arg3 == info.MaxTXID && $arg4 == 0 && $arg5 == 0
+  at os.(*File).WriteAt#all assert [C16.locked-write] $recv == f && flock_held[f]
+  at os.(*File).WriteAt#all assert [C16.page-offset] len($arg0) == pageSize && (phdr.Pgno >= 1 ==> $arg1 == (phdr.Pgno - 1) * pageSize)
+  at os.(*File).Truncate#all assert [C16.truncate-commit] $recv == f && flock_held[f] && $arg0 == hdr.Commit * pageSize && hdr.Commit > 0
+  at ltx.(*Decoder).Close#1 reset fl_decClosed = nil
+  at ltx.(*Decoder).Close#1 set fl_decClosed = $result0
+  ensures [C16.checksum] fl_decClosed != nil ==> err != nil
+  ensures [C16.durable] err == nil ==> synced(f)
+  ensures [C16.unlock] flock_held[f] == old(flock_held[f]) || !flock_held[f]
+  loop 0 invariant r == old(r) && f == old(f) && info == old(info) && pageSize == old(pageSize) && flock_held[f] && fl_decClosed == nil && dec != nil
+
+// A poll applies level-0 files in TXID order; every applied file starts at or before current+1 and ends
+// after current (no skip, no regress); the returned TXID is exactly what has been applied and made durable.
+func litestream.(*Replica).applyNewLTXFiles(r, ctx, f, afterTXID, pageSize) (txid, err)
+  requires r != nil && r.Client != nil && f != nil && fl_cur == afterTXID && 0 <= afterTXID && afterTXID < 9223372036854775807 && pageSize <= 65536
+  modifies $alloc, it_idx, path_synced, file_closed, flock_held, fl_decClosed, fl_cur, all(ltx.Decoder), all(ltx.Header), all(ltx.Trailer), all(ltx.PageHeader), all(ltx.PageIndexElem), key("Elem_string"), key("Elem_uint8")
+  at litestream.ReplicaClient.LTXFiles#1 assert [C16.poll-l0] $recv == r.Client && $arg1 == 0 && $arg2 == afterTXID + 1
+  at litestream.(*Replica).applyLTXFile#all reset fl_decClosed = nil
+  at litestream.(*Replica).applyLTXFile#all assert [C16.no-skip] $arg2.MinTXID <= fl_cur + 1 && fl_cur < $arg2.MaxTXID && $arg1 == f && $arg3 == pageSize
+  at litestream.(*Replica).applyLTXFile#all set fl_cur = ($result0 == nil ? $arg2.MaxTXID : fl_cur)
+  ensures [C16.result-is-applied] txid >= afterTXID && txid < 9223372036854775807 && (err == nil ==> txid == fl_cur)
+  ensures [C16.durable] err == nil && txid > afterTXID ==> synced(f)
+  ensures [C16.catch-up] err == nil && itr != nil ==> (forall k int :: {item(itr, k)} 0 <= k && k < it_n[itr] ==> fmax(item(itr, k)) <= txid) || (exists k int :: {item(itr, k)} 0 <= k && k < it_n[itr] && fmin(item(itr, k)) > txid + 1)
+  loop 0 invariant r == old(r) && f == old(f) && pageSize == old(pageSize) && r.Client == old(r.Client) && itr != nil && itOK(itr) && it_client[itr] == r.Client && it_level[itr] == 0 && wfLevel(r.Client, 0)
+  loop 0 invariant fl_cur == currentTXID && afterTXID <= currentTXID && currentTXID < 9223372036854775807
+  loop 0 invariant currentTXID > afterTXID ==> synced(f)
+  loop 0 invariant forall k int :: {item(itr, k)} 0 <= k && k < it_idx[itr] ==> fmax(item(itr, k)) <= currentTXID
+
+// Gap bridging from higher levels obeys the same rule.
+func litestream.(*Replica).fillFollowGap(r, ctx, f, afterTXID, gapMinTXID, pageSize) (txid, err)
+  requires r != nil && r.Client != nil && f != nil && fl_cur == afterTXID && 0 <= afterTXID && afterTXID < 9223372036854775807 && pageSize <= 65536
+  modifies $alloc, it_idx, path_synced, file_closed, flock_held, fl_decClosed, fl_cur, all(ltx.Decoder), all(ltx.Header), all(ltx.Trailer), all(ltx.PageHeader), all(ltx.PageIndexElem), key("Elem_string"), key("Elem_uint8")
+  at litestream.(*Replica).applyLTXFile#all reset fl_decClosed = nil
+  at litestream.(*Replica).applyLTXFile#all assert [C16.no-skip] $arg2.MinTXID <= fl_cur + 1 && fl_cur < $arg2.MaxTXID && $arg1 == f && $arg3 == pageSize
+  at litestream.(*Replica).applyLTXFile#all set fl_cur = ($result0 == nil ? $arg2.MaxTXID : fl_cur)
+  ensures [C16.result-is-applied] txid >= afterTXID && txid < 9223372036854775807 && fl_cur >= txid && (err == nil ==> txid == fl_cur)
+  ensures [C16.durable] err == nil && txid > afterTXID ==> synced(f)
+  ensures err == nil && txid == afterTXID ==> path_synced == old(path_synced)
+  ensures (forall i int :: {it_idx[i]} old(allocated(i)) ==> it_idx[i] == old(it_idx[i]))
+  loop 0 invariant r == old(r) && f == old(f) && pageSize == old(pageSize) && r.Client == old(r.Client) && fl_cur == currentTXID && currentTXID == afterTXID && 1 <= level
+  loop 0 invariant (forall i int :: {it_idx[i]} old(allocated(i)) ==> it_idx[i] == old(it_idx[i]))
+  loop 1 invariant (forall i int :: {it_idx[i]} old(allocated(i)) ==> it_idx[i] == old(it_idx[i])) && fresh(itr)
+  loop 1 invariant r == old(r) && f == old(f) && pageSize == old(pageSize) && r.Client == old(r.Client) && itr != nil && itOK(itr) && it_client[itr] == r.Client && it_level[itr] == level && wfLevel(r.Client, level)
+  loop 1 invariant fl_cur == currentTXID && afterTXID <= currentTXID && currentTXID < 9223372036854775807 && 1 <= level && level < 9
+  loop 1 invariant currentTXID > afterTXID ==> synced(f)
+  loop 1 invariant currentTXID == afterTXID ==> path_synced == old(path_synced)
+  loop 0 invariant path_synced == old(path_synced)
+
+// The follow loop polls from the last applied TXID and writes the sidecar only for a TXID that a
+// successful poll has applied and made durable; the sidecar sequence is strictly increasing.
+func litestream.(*Replica).follow(r, ctx, outputPath, lastTXID, interval) (err)
+  requires r != nil && r.Client != nil
+  assumes 0 <= lastTXID && lastTXID < 9223372036854775807     // A-txid-range: TXIDs (here: the sidecar value) stay below 2^63-1
+  modifies $heap, $alloc, it_idx, path_synced, path_handle, file_closed, file_written, flock_held, fl_decClosed, fl_cur, txf_dst, txf_renamed
+  at os.OpenFile#1 assert [C16.open-output] $arg0 == outputPath
+  at litestream.(*Replica).applyNewLTXFiles#1 reset fl_cur = lastTXID
+  at litestream.(*Replica).applyNewLTXFiles#1 assert [C16.poll-from-last] $arg1 == f && f != nil && $arg2 == lastTXID
+  at litestream.WriteTXIDFile#1 reset txf_renamed = false
+  at litestream.WriteTXIDFile#1 assert [C16.sidecar-after-apply] $arg0 == outputPath && $arg1 == newTXID && newTXID > lastTXID && fl_cur == newTXID && synced(f)
+  loop 0 invariant r == old(r) && r.Client == old(r.Client) && outputPath == old(outputPath) && f != nil && old(lastTXID) <= lastTXID && lastTXID < 9223372036854775807 && pageSize <= 65536
 */
